@@ -1,10 +1,17 @@
 #!/bin/bash
 # seedtest.sh <seed-id> <prop>... : apply the seeded change to /repo, run the named checks, undo.
+# The evidence files the checks write while the seed is applied are discarded afterwards (the
+# committed evidence must come from the unchanged tree only).
 S=$1; shift
 cd /repo && git diff --quiet || { echo "/repo has uncommitted changes"; exit 2; }
-git -C /repo apply /verif/seeded/$S/patch.diff || exit 2
+SAVE=$(mktemp -d /verif/build/evsave.XXXXXX)
+cp -a /verif/evidence/. "$SAVE"/
+git -C /repo apply /verif/seeded/$S/patch.diff || { rm -rf "$SAVE"; exit 2; }
 for P in "$@"; do
   echo "--- seed $S check $P"
   (cd /verif && ./check $P --tier quick 2>&1 | grep -E "^(VIOLATION|OK|KNOWN|# )" | head -6)
 done
 git -C /repo checkout -- .
+cp -a "$SAVE"/. /verif/evidence/ && rm -rf "$SAVE"
+# the generated constants must be re-extracted from the clean tree
+(cd /verif && python3 tools/extract.py >/dev/null 2>&1)
